@@ -169,6 +169,8 @@ func (c *Conn) AsyncRead() {
 	if g.isOneshot {
 		g.IOExecute(func(pbuf *[]byte) {
 			for i := 0; i < g.MaxConnReadTimesPerEventLoop; i++ {
+				// the previous round left the buffer cut to what it had read.
+				*pbuf = (*pbuf)[:cap(*pbuf)]
 				rc, n, err := c.ReadAndGetConn(pbuf)
 				if n > 0 {
 					*pbuf = (*pbuf)[:n]
@@ -209,6 +211,8 @@ func (c *Conn) AsyncRead() {
 		for {
 			// try to read all the data available.
 			for i := 0; i < g.MaxConnReadTimesPerEventLoop; i++ {
+				// the previous round left the buffer cut to what it had read.
+				*pBuf = (*pBuf)[:cap(*pBuf)]
 				rc, n, err := c.ReadAndGetConn(pBuf)
 				if n > 0 {
 					*pBuf = (*pBuf)[:n]
